@@ -61,6 +61,15 @@ def run(chk):
                 nm = f"nest/{outer}-with-{inner}-at-{pos}"
                 rules.Case(nm, mk, 5, B if chk.tier == "thorough" else ("E", "SE"), kind="arity_bounded")
                 names.append(nm)
+    # an operand that is an anonymous function compiled to a `def` (statement body): creating it evaluates its parameter defaults,
+    # exactly when the operand is reached - a `def` is not effect-free
+    from hy.models import List as L_
+    fnop = lambda d: E(S("fn"), L_([L_([S("hv_p"), d])]), E(S("setv"), S("hv_y"), S("hv_p")), S("hv_y"))
+    for op in ("and", "or"):
+        rules.Case(f"nest/{op}-with-def-fn-second", lambda a, d, op=op: E(S(op), a, fnop(d)), 2, ("E", "SE"), kind="arity_bounded")
+        rules.Case(f"nest/{op}-with-def-fn-last-of-three", lambda a, b, d, op=op: E(S(op), a, b, fnop(d)), 3, ("E", "SE"), kind="arity_bounded")
+        rules.Case(f"nest/{op}-with-def-fn-middle", lambda a, d, c, op=op: E(S(op), a, fnop(d), c), 3, ("E", "SE"), kind="arity_bounded")
+        names += [f"nest/{op}-with-def-fn-second", f"nest/{op}-with-def-fn-last-of-three", f"nest/{op}-with-def-fn-middle"]
     rules.Case("nest/and-of-if", lambda a, b, c, d: E(S("and"), E(S("if"), a, b, c), d), 4, B, kind="arity_bounded")
     rules.Case("nest/or-of-try", lambda a, b, c: E(S("or"), E(S("try"), a, E(S("finally"), b)), c), 3, B, kind="arity_bounded")
     names += ["nest/and-of-if", "nest/or-of-try"]
